@@ -142,6 +142,29 @@ def run(ctx):
             ctx.bump("rdb_list_cycles")
             if rc != 0:
                 ctx.fail("oracle", "mounting a partitioned disk with a cyclic list did not terminate / crashed (exit %d)" % rc, {"redirect": what, "script": L}, expected="error or data", actual=out[-2:])
+    # floppy whose root claims a bitmap-extension block: page slot of the root emptied, bmExt -> a block of zeros whose next is itself
+    for (flav, n, data, label) in bases[:2]:
+        root = n // 2
+        for x in (n - 3, 2):
+            for nxt in ("itself", "root"):
+                m = bytearray(data)
+                mkimage.put32(m, root * 512 + 316, 0)
+                mkimage.put32(m, root * 512 + 416, x)
+                rb = bytearray(m[root * 512:(root + 1) * 512])
+                mkimage.fix_sum(rb)
+                m[root * 512:(root + 1) * 512] = rb
+                m[x * 512:(x + 1) * 512] = bytes(512)
+                mkimage.put32(m, x * 512 + 508, x if nxt == "itself" else root)
+                mp = os.path.join(ctx.work, "c11_bmx.img")
+                open(mp, "wb").write(bytes(m))
+                L = ["readlimit %d" % (3 * n + 200), "loaddev mem %s" % mp, "mountdev 1", "mount 0 1", "free", "list - 0 1", "umount", "umountdev"]
+                rc, out, err, wd2 = common.run_script(ctx, "\n".join(L) + "\n", timeout=100)
+                shutil.rmtree(wd2, ignore_errors=True)
+                ctx.count(("bmext-floppy", flav, x, nxt))
+                ctx.bump("bitmap_extension_cycles")
+                if rc != 0:
+                    ctx.fail("oracle", "mounting a floppy whose root points to an empty, cyclic bitmap-extension block did not terminate / crashed (exit %d)" % rc,
+                             {"flavour": flav, "root_bmPages0": 0, "root_bmExt": x, "ext_next": nxt, "script": L}, expected="error or data", actual=out[-2:])
     # volume with bitmap-extension blocks (more than 25 bitmap pages = more than 101600 blocks): cyclic extension list
     nbig = 4064 * 25 + 2 + 4064 * 2
     L0 = gen.dev_create("HF:%d" % nbig, 1) + ["dump $W/big.img"]
@@ -154,10 +177,20 @@ def run(ctx):
         if not (2 <= ext < nbig):
             ctx.notes.append("no bitmap-extension block on the %d-block hardfile (bmExt=%d)" % (nbig, ext))
         else:
-            for (blk, off, val, what) in [(ext, 508, ext, "bitmap-extension block.next -> itself"), (ext, 508, root, "bitmap-extension block.next -> root block"),
-                                          (ext, 0, ext, "first page pointer of the extension block -> the extension block"), (ext, 508, 0, "unchanged control")]:
+            cases = [([(ext, 508, ext)], "bitmap-extension block.next -> itself"), ([(ext, 508, root)], "bitmap-extension block.next -> root block"),
+                     ([(ext, 0, ext)], "first page pointer of the extension block -> the extension block"), ([(ext, 508, 0)], "unchanged control"),
+                     # a walk that only ends when enough pages were collected: a block with empty slots adds none
+                     ([(ext, 4, 0), (ext, 508, ext)], "extension block: second page slot empty and next -> itself"),
+                     ([(ext, 0, 0), (ext, 508, ext)], "extension block: first page slot empty and next -> itself"),
+                     ([(root, 316 + 4 * 24, 0), (root, 416, ext), (ext, 0, 0), (ext, 4, 0), (ext, 508, ext)], "root: last page slot empty; extension block: slots empty, next -> itself")]
+            for (pokes, what) in cases:
                 m = bytearray(data)
-                mkimage.put32(m, blk * 512 + off, val)
+                for (blk, off, val) in pokes:
+                    mkimage.put32(m, blk * 512 + off, val)
+                if any(blk == root for (blk, off, val) in pokes):
+                    rb = bytearray(m[root * 512:(root + 1) * 512])
+                    mkimage.fix_sum(rb)
+                    m[root * 512:(root + 1) * 512] = rb
                 mp = os.path.join(ctx.work, "c11_big.img")
                 open(mp, "wb").write(bytes(m))
                 L = ["readlimit %d" % (3 * nbig + 200), "loaddev file %s" % mp, "mountdev 1", "mount 0 1", "free", "list - 0 1", "umount", "umountdev"]
